@@ -110,39 +110,51 @@ def run_configs(mod, pid, tier, res):
     res.extra["configurations"] = confs
 
 
-def main():
-    ap = argparse.ArgumentParser()
-    ap.add_argument("prop")
-    ap.add_argument("--tier", default=os.environ.get("VERIF_TIER", "quick"),
-                    choices=["quick", "thorough"])
-    a = ap.parse_args()
-    pid = a.prop.upper()
+def run_one(pid, tier, ctx):
     t0 = time.time()
     res = report.Result(pid)
-    ctx = Context(a.tier)
     try:
         mod = importlib.import_module("acq.props." + pid.lower())
         ctx.program()
         mod.run(ctx, res)
         if not os.environ.get("ACQ_REPO"):
-            if a.tier == "thorough":
-                run_configs(mod, pid, a.tier, res)
-            run_controls(mod, pid, a.tier, res)
-        rc = report.conclude(res, a.tier, t0, ctx.info)
+            if tier == "thorough":
+                run_configs(mod, pid, tier, res)
+            run_controls(mod, pid, tier, res)
+        rc = report.conclude(res, tier, t0, ctx.info)
     except build.AnalysisBroken as e:
         print("ANALYSIS-BROKEN: %s" % e)
         res.extra.setdefault("explanation", "analysis could not be carried out")
-        report.write_evidence(res, a.tier, time.time() - t0, ctx.info, 0, [],
+        report.write_evidence(res, tier, time.time() - t0, ctx.info, 0, [],
                               [str(e)])
         rc = 2
     except Exception:
         traceback.print_exc()
         print("ANALYSIS-BROKEN: internal error in the checker")
         res.extra.setdefault("explanation", "analysis could not be carried out")
-        report.write_evidence(res, a.tier, time.time() - t0, ctx.info, 0, [],
+        report.write_evidence(res, tier, time.time() - t0, ctx.info, 0, [],
                               ["internal error"])
         rc = 2
-    sys.exit(rc)
+    return rc
+
+
+def main():
+    ap = argparse.ArgumentParser()
+    ap.add_argument("prop", help="Cxx, or a comma separated list (one process, one extraction: used by tools/matrix.py)")
+    ap.add_argument("--tier", default=os.environ.get("VERIF_TIER", "quick"),
+                    choices=["quick", "thorough"])
+    a = ap.parse_args()
+    ids = [x.strip().upper() for x in a.prop.split(",") if x.strip()]
+    ctx = Context(a.tier)
+    if "," not in a.prop:
+        sys.exit(run_one(ids[0], a.tier, ctx))
+    worst = 0
+    for pid in ids:
+        print("=== %s" % pid, flush=True)
+        rc = run_one(pid, a.tier, ctx)
+        print("=== rc %s %d" % (pid, rc), flush=True)
+        worst = max(worst, rc)
+    sys.exit(worst)
 
 
 if __name__ == "__main__":
